@@ -13,6 +13,11 @@ import Thanos.Model.ReadPath
      calls    = c,c,…      c = n (Next) | s<t> (Seek t) | d (Next until ValNone)
      answer   = o,o,…      o = t:v (At() after a successful call) | x (ValNone) | panic (trace ends)
 
+  ds.run <f> <replicaLabels> <series>     (C01)   the series-SET level: dedup.NewSeriesSet over several input series
+     replicaLabels = name,name,… | -      (removed from every input series before the set sees it)
+     series   = S|S|…      S = <labels>@<samples>      labels = k=v,k=v,… (any order) | -     samples = t:v,… | e
+     answer   = O|O|…      O = <labels>@<trace of Next until ValNone>    in output order;  - = no series
+
   cm.merge <series>                      (C40)   NewChunkSeriesMerger over aggregate chunk series
      series   = S|S|…      S = chunk;chunk;…
      chunk    = mint/maxt/A0/A1/A2/A3/A4        Ai = n (aggregate absent) | e (no samples) | t:v,t:v,…
@@ -197,6 +202,14 @@ def tsdbOp (d w rl qmint qmaxt stores : String) : String :=
     joinWith "|" (res.map fun kv => s!"{kv.1}@{showSamples (kv.2.getD [])}")
   | _, _, _, _, _ => "bad-op"
 
+def parseInSeries (s : String) : Option (List Lbl × List Sample) :=
+  match splitChar '@' s with
+  | [ls, sm] => do
+    let ls ← parseLbls ls
+    let sm ← parseReplica sm
+    pure (ls, sm)
+  | _ => none
+
 def handle : List String → String
   | ["dd.run", f, reps, calls] =>
     match parseReplicas reps, (listOf ',' calls).mapM parseCall with
@@ -204,6 +217,15 @@ def handle : List String → String
       let it := mkF seekFixed (if f = "none" then "" else f) r rs
       joinWith "," ((runD it.ops cs it.st).map showObs)
     | _, _ => "bad-op"
+  | ["ds.run", f, rl, series] =>
+    match (splitChar '|' series).mapM parseInSeries with
+    | some ss =>
+      let rl := if rl = "-" then [] else splitChar ',' rl
+      let out := dedupSet seekFixed (if f = "none" then "" else f) rl ss
+      if out.isEmpty then "-" else
+      joinWith "|" (out.map fun (ls, it) =>
+        (if ls.isEmpty then "-" else showLbls ls) ++ "@" ++ joinWith "," ((runD it.ops [.drain] it.st).map showObs))
+    | none => "bad-op"
   | ["cm.merge", series] =>
     match parseSeries series with
     | some ss =>
